@@ -61,3 +61,51 @@ pub fn detach_sweep(ctx: &Ctx, stats: &Stats, tier: Tier) -> u64 {
     });
     runs.load(Ordering::Relaxed)
 }
+
+/// xml5ever's tree builder has a trace_handles too: every string of <= k xml lexemes, one chunk per lexeme
+/// (every chunk boundary and every `</script>` pause is a suspension point), with the simulated collector:
+/// no later sink call may name a collected node and the tree must equal the run without the collector
+pub fn xml_sweep(ctx: &Ctx, stats: &Stats, tier: Tier) -> u64 {
+    use crate::xmlh::*;
+    let mut lex: Vec<&str> = crate::c15::xml_lexemes();
+    for extra in ["<a>", "</a>", "<a/>", "</>", "<p:a xmlns:p='u'>", "<script/>", "<script>", "</script>", "<?pi d?>", "<!--c-->", "<!DOCTYPE a>", "<![CDATA[x]]>", "x"] {
+        if !lex.contains(&extra) {
+            lex.push(extra);
+        }
+    }
+    let k = tier.pick(3, 4);
+    let n = lex.len();
+    let runs = AtomicU64::new(0);
+    (0..n).into_par_iter().for_each(|f| {
+        let mut stack: Vec<Vec<usize>> = vec![vec![f]];
+        while let Some(cur) = stack.pop() {
+            let sched: Vec<Feed> = cur.iter().map(|&i| Feed::Chunk(lex[i].to_string())).collect();
+            let gcfg = XmlCfg { gc: true, ..Default::default() };
+            runs.fetch_add(1, Ordering::Relaxed);
+            stats.execs.fetch_add(1, Ordering::Relaxed);
+            let w = || crate::c15::witness(&gcfg, &sched);
+            match (guarded(|| run_xml_tree(&gcfg, &sched, true)), guarded(|| run_xml_tree(&XmlCfg::default(), &sched, true))) {
+                (Ok(g), Ok(b)) => {
+                    stats.collected.fetch_add(g.collected as u64, Ordering::Relaxed);
+                    if let Some(c) = g.sink.contract.borrow().iter().find(|c| c.contains("collected")) {
+                        ctx.violation("untraced-node-used", &w(), json!({"message": c, "job": "xml"}));
+                    } else if crate::c15::tree_sig(&g) != crate::c15::tree_sig(&b) {
+                        ctx.violation("gc-changes-tree", &w(), json!({"with_collector": crate::c15::tree_sig(&g), "without": crate::c15::tree_sig(&b), "job": "xml"}));
+                    }
+                },
+                (Err(p), Ok(_)) => {
+                    ctx.violation("panic", &w(), json!({"panic": p, "job": "xml"}));
+                },
+                _ => {},
+            }
+            if cur.len() < k {
+                for i in 0..n {
+                    let mut nx = cur.clone();
+                    nx.push(i);
+                    stack.push(nx);
+                }
+            }
+        }
+    });
+    runs.load(Ordering::Relaxed)
+}
